@@ -20,7 +20,7 @@ type C15LS struct {
 	Xs      []float64 `json:"xs"`
 	Ys      []float64 `json:"ys"`
 	Weights []float64 `json:"weights"`
-	Basis   string    `json:"basis"` // "poly<d>", "trig", "abs"
+	Basis   string    `json:"basis"` // "poly<d>", "trig", "abs", "only-x", "only-exp", "x-x2", "x-then-1"
 }
 
 type C15Loess struct {
@@ -60,6 +60,14 @@ func c15Basis(name string) []c15Term {
 		return []c15Term{{"1", func(float64) float64 { return 1 }}, {"sin", math.Sin}, {"exp", math.Exp}}
 	case "abs":
 		return []c15Term{{"1", func(float64) float64 { return 1 }}, {"|x|", math.Abs}}
+	case "only-x": // a single non-constant term: slope through the origin
+		return []c15Term{{"x", func(x float64) float64 { return x }}}
+	case "only-exp":
+		return []c15Term{{"exp(x/2)", func(x float64) float64 { return math.Exp(x / 2) }}}
+	case "x-x2": // no constant term
+		return []c15Term{{"x", func(x float64) float64 { return x }}, {"x^2", func(x float64) float64 { return x * x }}}
+	case "x-then-1": // constant term last
+		return []c15Term{{"x", func(x float64) float64 { return x }}, {"1", func(float64) float64 { return 1 }}}
 	}
 	var d int
 	fmt.Sscanf(name, "poly%d", &d)
@@ -633,8 +641,21 @@ func c15Run(c *core.Ctx) {
 		runLS(xs, ys, ws, "trig")
 		runLS(xs, ys, nil, "abs")
 		runLS(xs, ys, ws, "abs")
+		for _, b := range []string{"only-x", "only-exp", "x-x2", "x-then-1"} {
+			runLS(xs, ys, nil, b)
+			runLS(xs, ys, ws, b)
+		}
+		// data generated exactly by the single term
+		for _, b := range []string{"only-x", "only-exp"} {
+			t := c15Basis(b)[0]
+			for i, x := range xs {
+				ys[i] = 2.5 * t.f(x)
+			}
+			runLS(xs, ys, nil, b)
+			runLS(xs, ys, ws, b)
+		}
 	})
-	r.Bound("least_squares", fmt.Sprintf("every subset of size %v of the 8-point lattice x {1,10} + n=40; 7 generating polynomials + table; degrees 0..6; 2 other bases; weighted and unweighted", sizes))
+	r.Bound("least_squares", fmt.Sprintf("every subset of size %v of the 8-point lattice x {1,10} + n=40; 7 generating polynomials + table; degrees 0..6; 6 other bases (incl. single non-constant terms and bases without / ending in the constant); weighted and unweighted", sizes))
 	// LOESS
 	lc := &C15Loess{}
 	lsizes := []int{4, 5, 6}
